@@ -19,8 +19,30 @@ func (e *histEngine) preamble() []string { return []string{"init\t" + initPayloa
 
 func vname(i int) string { return "v" + string(rune('a'+i%26)) + string(rune('0'+i/26)) }
 
-func (e *histEngine) step(r *rng, k int) MalType {
-	prev := func() MalType { return sy(vname(r.intn(k))) }
+// taint[j]: binding j may hold a set with more than one member (or something derived from one).  The order in which
+// seq / vec / first / rest / concat / map … enumerate such a set is Go's map order, so tainted bindings are only handed
+// to operations whose result does not depend on it (conj of a member, a list holding the value itself).
+func (e *histEngine) step(r *rng, k int, taint []bool) (form MalType, tainted bool) {
+	prev := func() MalType {
+		for try := 0; try < 8; try++ {
+			if j := r.intn(k); !taint[j] {
+				return sy(vname(j))
+			}
+		}
+		return vc(1, 2)
+	}
+	prevAny := func() MalType {
+		j := r.intn(k)
+		if taint[j] {
+			tainted = true
+		}
+		return sy(vname(j))
+	}
+	form = e.step1(r, k, prev, prevAny, &tainted)
+	return
+}
+
+func (e *histEngine) step1(r *rng, k int, prev, prevAny func() MalType, tainted *bool) MalType {
 	if k == 0 || r.chance(1, 6) {
 		if r.chance(1, 4) {
 			// EMPTY collections held in a binding: every way of getting one
@@ -92,7 +114,8 @@ func (e *histEngine) step(r *rng, k int) MalType {
 		return call1("assoc", prev(), kw(r.pick([]string{"a", "c"})), lit())
 	case 15:
 		if r.chance(1, 2) {
-			return call1("conj", prev(), kw(r.pick([]string{"a", "s"}))) // sets take keyword members
+			*tainted = true // a set may grow to two members here
+			return call1("conj", prevAny(), kw(r.pick([]string{"a", "s"}))) // sets take keyword members
 		}
 		switch r.intn(3) {
 		case 0:
@@ -140,7 +163,7 @@ func (e *histEngine) step(r *rng, k int) MalType {
 		v := prev()
 		return ls(sy("try"), call1("throw", call1("list", lit(), v)), ls(sy("catch"), v, call1("count", v)))
 	default:
-		return call1("first", call1("list", prev(), prev()))
+		return call1("first", call1("list", prevAny(), prevAny()))
 	}
 }
 
@@ -152,8 +175,11 @@ func (e *histEngine) generate(r *rng, n int, tier string, emit func(string)) {
 	for i := 0; i < n; i++ {
 		k := 3 + r.intn(maxSteps-2)
 		var steps []string
+		taint := make([]bool, k)
 		for j := 0; j < k; j++ {
-			steps = append(steps, render(ls(sy("def"), sy(vname(j)), e.step(r, j))))
+			f, t := e.step(r, j, taint)
+			taint[j] = t
+			steps = append(steps, render(ls(sy("def"), sy(vname(j)), f)))
 		}
 		emit(strings.Join(steps, " || "))
 	}
